@@ -157,6 +157,7 @@ def run(ctx: core.Ctx):
     for n in range(1, 7):
         sym += [SC.case_init_tuple(n, True, "int8"), SC.case_init_tuple(n, False, "int8"), SC.case_init_tuple(n, True, "int64"), SC.case_init_tuple(n, True, "uint8")]
         sym += [SC.case_init_graph(n, d) for d in ("int8", "uint8", "int64")]
+        sym.append(SC.case_init_circuit(n))        # the constructor's reading of the tableau layout assumed in Q1, for every tableau
     symrun.run(ctx, sym, label="sym")      # matrix and graph formats: VCs from the real constructor, all bit matrices / all graphs, n = 1..6
     jobs = [(strings_job, n) for n in range(1, 7 if not ctx.quick else 6)]
     res = core.pmap(lambda j: j[0](j[1]), jobs + [(all_lists_job, 0)] + [(formats_job, (n, ctx.seed + n, 200 if ctx.quick else 2000)) for n in range(2, 7)], chunks=1)
